@@ -473,6 +473,9 @@ func (w *shapeWalker) visit(t types.Type, sr *openapi3.SchemaRef, where string) 
 			return
 		}
 		if n, ok := types.Unalias(inner).(*types.Named); ok && w.mode == "C07" && !s.Nullable {
+			if tgt := delegateTarget(p, n); tgt != nil {
+				n = tgt // `type B A` with both JSON methods delegating to the array component A
+			}
 			if why := arrayComponentProblem(p, n); why != "" {
 				w.r.Violation(w.rule("shape"), key+":array component", "", why)
 			}
@@ -685,6 +688,36 @@ func (w *shapeWalker) object(t types.Type, s *openapi3.Schema, key, where string
 					}
 				}
 			}
+			if ps != nil && ps.Value != nil && !isCustom(ps.Value) && ps.Value.Type == "string" && ps.Value.Format == "date-time" {
+				// decode→encode keeps the instant only if both directions use the layout the schema
+				// demands (RFC3339Nano unless x-goag-go-time-format): time.Parse accepts a fractional
+				// second under any layout with a seconds field, Format drops it under a coarser one
+				want := rfc3339NanoLit
+				if f := extString(ps.Value, "x-goag-go-time-format"); f != "" {
+					want = timeLayoutLit(f)
+				}
+				var wl []string
+				for _, wr := range o.Writer {
+					if wr.Kind == "prop" && wr.Key == k {
+						wl = wr.Layouts
+					}
+				}
+				isNamed := false
+				if rd.Field != nil {
+					_, isNamed = derefNamed(unwrapInner(rd.Field.Type()))
+				}
+				if !(isNamed && len(wl) == 0 && len(rd.Layouts) == 0) {
+					badL := len(wl) == 0 || len(rd.Layouts) == 0
+					for _, l := range append(append([]string{}, wl...), rd.Layouts...) {
+						if l != want {
+							badL = true
+						}
+					}
+					if badL {
+						problems = append(problems, fmt.Sprintf("property %q: date-time is parsed with %v and re-encoded with %v, the schema demands %s: a valid document with a sub-second part decodes and re-encodes to a different instant", k, rd.Layouts, wl, want))
+					}
+				}
+			}
 			if ps != nil && ps.Value != nil && !isCustom(ps.Value) && rd.NullTest != ps.Value.Nullable {
 				problems = append(problems, fmt.Sprintf("property %q: schema nullable=%v but the reader special-cases null=%v", k, ps.Value.Nullable, rd.NullTest))
 			}
@@ -742,6 +775,11 @@ func (w *shapeWalker) oneOf(t types.Type, s *openapi3.Schema, key string) {
 	}
 	oo := w.jp.OneOfs[n.Obj().Name()]
 	if oo == nil {
+		// a component that is a $ref to a oneOf component: `type B A`, both JSON methods delegate
+		if tgt := delegateTarget(w.jp.P, n); tgt != nil {
+			w.oneOf(tgt, s, key)
+			return
+		}
 		w.r.Undecided(ruleName, key, "", "no oneOf decoder found for type "+n.Obj().Name())
 		return
 	}
@@ -909,6 +947,8 @@ func runC08(r *Report) {
 	r.Explanation = "Losslessness on all valid documents is a value-level statement and is NOT decided. Decided, for every schema position (same walk as C07) of every instantiated program: (reader-table) every declared key is looked up by its exact name in the raw map; required ⇔ the else-branch returns an error naming the key; declared keys are deleted and the remainder is stored into AdditionalProperties ⇔ the schema allows them, each entry decoded into a fresh variable; embedded (allOf $ref) members are decoded from the same map; (strict-errors) inside each key block every call that returns an error (json.Unmarshal, X.UnmarshalJSON, time.Parse, Set…) reads this key's raw value, is tested immediately, and the non-nil branch returns an error whose format names the key — a type mismatch reported by encoding/json cannot be swallowed; (oneof) discriminator form ⇒ one switch case per mapping value and implicit schema name, error default; probing form ⇒ one probe per variant and an error when none succeeds; (request-body) new<Op>Params decodes a declared JSON body into params.Body and returns the error."
 	r.Rule("C08/reader-table", "reader key table at every schema position equals the schema: keys, required ⇔ missing-key error naming it, null handling, leftovers ⇔ additionalProperties, embedded members")
 	r.Rule("C08/oneof", "discriminator switch covers exactly the schema's mapping (explicit + implicit), error otherwise; probing covers every variant")
+	r.Rule("C08/fresh-element", "every loop that decodes elements (array items, map entries, header/query values) decodes into a variable declared inside the loop body or reset before the decode: json.Unmarshal and the generated UnmarshalJSON merge into their target")
+	r.Rule("C08/witness", "fresh-element flags the hoisted-target witnesses and is silent on the fresh/reset/probe ones")
 	r.Rule("C08/body-sites", "declared JSON request bodies are decoded into params.Body with the error returned; response bodies decoded by the client are C10's")
 	r.Assumptions = append(r.Assumptions, "NOT decided: that every valid document decodes and re-encodes equivalently (value level); key-order independence is inherited from map[string]json.RawMessage", "null for a non-nullable required property is accepted by encoding/json (the property exempts null)", "programs bounded by the corpus")
 	s3, progs := loadJSONPrograms(r, "C08")
@@ -916,12 +956,21 @@ func runC08(r *Report) {
 		return
 	}
 	defer s3.Close()
-	nPos, nBodies := 0, 0
+	nPos, nBodies, nLoops := 0, 0, 0
 	for _, jp := range progs {
 		w := &shapeWalker{r: r, s3: s3, jp: jp, mode: "C08", seen: map[string]bool{}}
 		nBodies += w.roots()
 		nPos += w.nPos
+		before := len(r.Obls)
+		n := freshElements(r, s3, jp.P, jp.P.Pkg.Types, jp.P.Pkg.TypesInfo, jp.P.Pkg.Syntax, "C08/fresh-element")
+		nLoops += n
+		if len(r.Obls) == before {
+			r.OK("C08/fresh-element", jp.P.Name, "", fmt.Sprintf("%d decoder loops, every target declared in the loop body or reset", n))
+		}
 	}
+	c08Witness(r)
+	r.Analysed["decoder_loops"] = nLoops
+	r.FloorMin("decoder loops (loops that decode into a variable)", nLoops, 25)
 	r.Analysed["schema_positions_visited"] = nPos
 	r.Analysed["json_body_sites"] = nBodies
 	r.FloorMin("schema positions visited", nPos, 300)
